@@ -87,6 +87,8 @@ theorem measure_interrupt (s : St) (p : Pid) : measure ((interrupt s p).pc p) 
   unfold interrupt
   split
   路 rename_i h; simp [setPC, measure, afterMeasure, h]
+  路 rename_i h; simp [setPC, measure, afterMeasure, h]
+  路 simp [setPC, measure]
   路 exact Nat.le_refl _
 
 /-- the others' measures are untouched -/
